@@ -13,6 +13,7 @@ import (
 	"time"
 
 	"github.com/cenkalti/rain/v2/internal/logger"
+	"github.com/cenkalti/rain/v2/internal/resumer/boltdbresumer"
 	"github.com/cenkalti/rain/v2/torrent"
 	"github.com/cenkalti/rain/v2/verifharness/core"
 	"github.com/cenkalti/rain/v2/verifharness/model"
@@ -21,6 +22,7 @@ import (
 	"github.com/cenkalti/rain/v2/verifharness/speer"
 	"github.com/cenkalti/rain/v2/verifharness/sstore"
 	"github.com/cenkalti/rain/v2/verifharness/strk"
+	"go.etcd.io/bbolt"
 	"pgregory.net/rapid"
 )
 
@@ -40,7 +42,9 @@ type PrivCase struct {
 	Magnet   bool         `json:"magnet"` // add by magnet; the metadata comes from a scripted peer
 	PexFirst bool         `json:"pex_before_metadata"`
 	Port     bool         `json:"send_port_message"`
-	Restart  int          `json:"restart"` // 0 no; 1 session closed and reopened right after a started add; 2 after an add in stopped state
+	// RestartAfter (magnet only): after the observation the session is closed and opened again on the same database
+	RestartAfter bool `json:"restart_after"`
+	Restart      int  `json:"restart"` // 0 no; 1 session closed and reopened right after a started add; 2 after an add in stopped state
 }
 
 var encodings = []string{"i1e", "i1e", "i1e", "i2e", "i-1e", "1:1", "3:yes", "i0e", "1:0", "0:", "le", "de", "i99999999999999999999e", "l1:xe"}
@@ -55,6 +59,8 @@ func genPriv(t *rapid.T) PrivCase {
 	c.Port = rapid.Bool().Draw(t, "port")
 	if !c.Magnet {
 		c.Restart = rapid.SampledFrom([]int{0, 0, 1, 2}).Draw(t, "restart")
+	} else {
+		c.RestartAfter = rapid.Bool().Draw(t, "restartAfter")
 	}
 	return c
 }
@@ -74,6 +80,10 @@ type observed struct {
 	stoppedErr    string
 	wrote         int
 	metadataKnown bool
+	// after a restart of the session (magnet cases with RestartAfter)
+	infoPersisted     bool // the resume record holds an info dictionary
+	metaAfterRestart  bool // the reloaded torrent knows its metadata
+	wroteAfterRestart int
 }
 
 const (
@@ -298,6 +308,37 @@ func observe(c *PrivCase, enc string) (o observed, fail string) {
 	for _, m := range prov.ByID {
 		o.wrote = len(m.Writes())
 	}
+	if c.Magnet && c.RestartAfter {
+		id := tor.ID()
+		if err := ses.Close(); err != nil {
+			return o, "close: " + err.Error()
+		}
+		if db, err := bbolt.Open(cfg.Database, 0o600, &bbolt.Options{Timeout: 2 * time.Second, NoSync: true}); err == nil {
+			if rs, err := boltdbresumer.New(db, []byte("torrents")); err == nil {
+				if sp, err := rs.Read(id); err == nil {
+					o.infoPersisted = len(sp.Info) > 0
+				}
+			}
+			db.Close()
+		}
+		cfg2 := cfg
+		cfg2.ResumeOnStartup = true
+		ses2, err := torrent.NewSession(cfg2)
+		if err != nil {
+			ses, _ = torrent.NewSession(sess.Config(dir + "/x")) // keep the deferred Close valid
+			return o, "reopen: " + err.Error()
+		}
+		ses = ses2
+		if t2 := ses.GetTorrent(id); t2 != nil {
+			_ = t2.Start()
+			time.Sleep(700 * time.Millisecond)
+			st := t2.Stats()
+			o.metaAfterRestart = st.Pieces.Total > 0
+		}
+		for _, m := range prov.ByID {
+			o.wroteAfterRestart = len(m.Writes()) - o.wrote
+		}
+	}
 	return o, ""
 }
 
@@ -321,6 +362,11 @@ func runPriv(c PrivCase) core.Result {
 	}
 	if ctl.statsPrivate {
 		return core.Failf("metainfo without a private key is reported as private")
+	}
+	// every other encoding of the flag: a key that is present marks the torrent private unless its value is the integer
+	// 0 or the strings "" / "0" - odd types (lists, dictionaries, integers beyond 64 bits) included, the safe side
+	if marked := c.Enc != "" && c.Enc != "i0e" && c.Enc != "1:0" && c.Enc != "0:"; !c.Magnet && o.added && o.statsPrivate != marked {
+		return core.Failf("metainfo with private=%s is reported as private=%v, want %v", c.Enc, o.statsPrivate, marked)
 	}
 	// control: the observation channels must be live, otherwise the private run proves nothing
 	if !c.Magnet || ctl.metadataKnown {
@@ -347,6 +393,13 @@ func runPriv(c PrivCase) core.Result {
 			}
 			if o.wrote > 0 {
 				return core.Failf("a magnet-added torrent whose metadata is private downloaded data (%d storage writes)", o.wrote)
+			}
+			if c.RestartAfter {
+				res.Labels = append(res.Labels, "magnet-private-restart")
+				if o.infoPersisted || o.metaAfterRestart || o.wroteAfterRestart > 0 {
+					return core.Failf("private metadata fetched through a magnet link was refused (%q), but it was kept: after a restart of the session the resume record holds an info dictionary: %v, the torrent knows its metadata: %v, storage writes: %d",
+						o.stoppedErr, o.infoPersisted, o.metaAfterRestart, o.wroteAfterRestart)
+				}
 			}
 			res.Nontrivial = true
 			return res
